@@ -57,6 +57,9 @@ def strategy():
       'backend': st.sampled_from(['ram', 'sqlmem']),
       'deploy': st.sampled_from(['local', 'local', 'distributed']),
       'recycle': st.sampled_from([0, 86400]),
+      # the server's local time zone must not matter for recycling operations
+      'tz': st.sampled_from(['UTC', 'UTC', 'America/Los_Angeles',
+                             'Asia/Tokyo', 'Pacific/Kiritimati']),
       'suggest_plan': st.lists(fault, min_size=8, max_size=8),
       'es_plan': st.lists(esf, min_size=6, max_size=6),
       'ops': st.lists(op, min_size=3, max_size=14),
@@ -109,6 +112,12 @@ def check(case):
     if polls[0] > 5:
       raise _Wedge()
   vizier_client.time.sleep = fake_sleep
+  import os as _os
+  import time as _time
+  old_tz = _os.environ.get('TZ')
+  _os.environ['TZ'] = case.get('tz', 'UTC')
+  _time.tzset()
+  out.cls('tz_' + case.get('tz', 'UTC').split('/')[0])
   try:
     svc.create_study(s, owner, 's')
     name = sm.sname(owner, 's')
@@ -274,6 +283,11 @@ def check(case):
     out.cls(case['deploy'], case['backend'])
   finally:
     vizier_client.time.sleep = real_sleep
+    if old_tz is None:
+      _os.environ.pop('TZ', None)
+    else:
+      _os.environ['TZ'] = old_tz
+    _time.tzset()
     closer()
   return out
 
@@ -285,6 +299,7 @@ def families(tier):
                   shards={'quick': 16, 'thorough': 16},
                   required_classes=('suggest_exception', 'short_delivery',
                                     'policy_factory_exception',
+                                    'tz_America', 'tz_Asia',
                                     'early_stop_exception', 'local',
                                     'distributed', 'ram', 'sqlmem',
                                     'fault_then_same_worker_suggest')),
